@@ -7,7 +7,7 @@ use crate::dbwalk::{self, Ser};
 use crate::gen_value::{VGen, ALL_BINARY_TYPES, ALL_XML_TYPES};
 use crate::rng::Rng;
 use crate::spec::{RefT, TreeSpec, PV};
-use rbx_dom_weak::types::{Variant, VariantType};
+use rbx_dom_weak::types::{SharedString, Variant, VariantType};
 
 #[derive(Clone, Copy, Debug, PartialEq, Eq)]
 pub enum Fmt {
@@ -205,7 +205,45 @@ impl DomGen {
             let name = self.name(r);
             spec.add(parent, &class, &name);
         }
+        // one time in four: a group of 2-4 instances of ONE class that all carry the same reference-like
+        // property (Content naming an instance, Ref, SharedString) with different targets. Readers and
+        // writers keep per-column side lists for these (object referents, referent deltas, SharedString
+        // indices), so a slip there only shows when several instances of a class share the column.
+        let twins: Option<(usize, usize, &str, u8)> = if self.known_classes && self.known_props && r.chance(1, 4) {
+            let table: &[(&str, &str, u8)] = match self.fmt {
+                Fmt::Binary => &[("ImageLabel", "ImageContent", 0), ("MeshPart", "MeshContent", 0), ("Decal", "TextureContent", 0), ("ObjectValue", "Value", 1),
+                                 ("WeldConstraint", "Part0Internal", 1), ("UnionOperation", "MeshData2", 2), ("Weld", "Part1", 1)],
+                Fmt::Xml => &[("ObjectValue", "Value", 1), ("WeldConstraint", "Part0Internal", 1), ("UnionOperation", "MeshData2", 2), ("Weld", "Part1", 1), ("Model", "PrimaryPart", 1)],
+            };
+            let (class, prop, kind) = *r.pick(table);
+            let k = 2 + r.below(3);
+            let first = spec.nodes.len();
+            let parent = r.below(first);
+            for i in 0..k {
+                let p = if r.chance(1, 3) { parent } else { r.below(spec.nodes.len()) };
+                spec.add(p, class, &format!("twin{}", i));
+            }
+            Some((first, k, prop, kind))
+        } else {
+            None
+        };
         self.fill_props(r, &mut spec);
+        if let Some((first, k, prop, kind)) = twins {
+            let n_nodes = spec.nodes.len();
+            for id in first..first + k {
+                let back = dbwalk::travel(dbwalk::db(), &spec.nodes[id].class, prop).map(|t| t.back_name.clone());
+                let class = spec.nodes[id].class.clone();
+                // no other spelling of the same logical property on the instance
+                spec.nodes[id].props.retain(|(n, _)| n != prop && (back.is_none() || back != dbwalk::travel(dbwalk::db(), &class, n).map(|t| t.back_name.clone())));
+                let t = if r.chance(1, 6) { RefT::Null } else { RefT::Node(r.below(n_nodes)) };
+                let pv = match kind {
+                    0 => PV::ContentObj(t),
+                    1 => PV::Ref(t),
+                    _ => PV::V(Variant::SharedString(SharedString::new(format!("twin-shared-{}", r.below(3)).into_bytes()))),
+                };
+                spec.nodes[id].props.push((prop.to_owned(), pv));
+            }
+        }
         spec
     }
 
